@@ -15,6 +15,8 @@ func init() {
 		Rules: []Rule{
 			{"ONE-TO-ONE-GUARD", ruleOneToOneGuard},
 			{"ONE-TO-ONE-SCAN", ruleOneToOneScan},
+			{"ORDER-DIRECTION-CARRIED", func(c *eng.Ctx) { ruleOrderDirectionCarried(c, "ORDER-DIRECTION-CARRIED") }},
+			{"JOIN-END", ruleJoinEnd},
 			{"SEEN-SET", func(c *eng.Ctx) { ruleSeenSet(c, "SEEN-SET", []string{"internal/planner/..."}, 1) }},
 			{"RECURSION-ARGS", func(c *eng.Ctx) {
 				ruleRecursionArgs(c, "RECURSION-ARGS", []string{"internal/planner/..."}, 3)
